@@ -20,6 +20,7 @@ EXPLANATION = (
 RULE = "one obligation per state/atomic write site, per decoder arm, per transition call site (table row), per window field in reset, per recorder (slide)"
 TRUSTED = ["std atomics", "rustc MIR construction", "tokio::sync::Mutex"]
 ASSUMPTIONS = ["entry functions of the circuit (record_success, record_failure, try_acquire, force_*, reset) keep their names"]
+CONFIG_CRATES = ["tower_resilience_circuitbreaker"]
 TECHNIQUE = "static analysis of built MIR: who-writes, table agreement (enum discriminants vs decoder), transition-table extraction with guard normal form, all-paths field clearing"
 
 EXPECTED = {
